@@ -42,18 +42,41 @@ def has(st, sub, pol=True, also=()):
     return any(p == pol and all(s in a for s in subs) for a, p in st)
 
 
-def whole_container_loops(f, what):
+def whole_container_loops(f, what, full=False):
     """loops that visit every element of the container whose rendering contains `what`, in order: a range-for over it, or an index loop
     `for (i = 0[, e = X.size()]; i !=|< e|X.size(); ++i)` whose body reads X[i] and never writes i.  -> [(loop node, element name)]: the
     range-for variable, or the local initialised from X[i] (None when the body uses X[i] directly)."""
     out = []
     for n in f.nodes:
         if n.get("k") == "forrange" and what in expr_str(n.child("range")):
-            out.append((n, n.get("var")))
+            out.append((n, n.get("var"), expr_str(n.child("range"))) if full else (n, n.get("var")))
             continue
         if n.get("k") != "for" or "init" not in n or "c" not in n or "inc" not in n:
             continue
         ivars = [v for d in n.child("init").walk() if d.get("k") == "decl" for v in d.get("vars", [])]
+        # iterator form: for (it = X.begin()[, ie = X.end()]; it != ie|X.end(); ++it) reading *it, `it` not written in the body
+        its = [v for v in ivars if "init" in v and expr_str(core(f.nodes[v["init"]])).endswith(".begin()") and what in expr_str(core(f.nodes[v["init"]]))]
+        if len(its) == 1:
+            it = its[0]
+            contb = expr_str(core(f.nodes[it["init"]]))[:-len(".begin()")]
+            c = core(n.child("c"))
+            ends = [expr_str(core(f.nodes[v["init"]])) for v in ivars if "init" in v and v is not it]
+            cond_txt = expr_str(c) if c is not None else ""
+            end_ok = (contb + ".end()") in cond_txt or any(e_ == contb + ".end()" for e_ in ends)
+            inc = core(n.child("inc"))
+            inc_ok = inc is not None and (inc.get("k") == "un" and "++" in inc.get("op", "") or inc.get("k") == "call" and "++" in (inc.get("op") or "")) and it["n"] in expr_str(inc)
+            body = n.child("body")
+            wr = [x for x in body.walk() if (x.get("k") == "un" and ("++" in x.get("op", "") or "--" in x.get("op", "")) or x.get("k") == "call" and (x.get("op") or "") in ("++", "--", "=", "+=")) and
+                  expr_str(core(x.child("e") if x.get("k") == "un" else (x.child("obj") if "obj" in x else x))).strip("()") == it["n"]]
+            if end_ok and inc_ok and not wr and ("!=" in cond_txt or "operator!=" in cond_txt):
+                name = None
+                for d in body.walk():
+                    if d.get("k") == "decl":
+                        for v in d.get("vars", []):
+                            if "init" in v and expr_str(core(f.nodes[v["init"]])).replace(" ", "") in ("(*%s)" % it["n"], "*%s" % it["n"]):
+                                name = v["n"]
+                out.append((n, name if name else "(*%s)" % it["n"], contb) if full else (n, name if name else "(*%s)" % it["n"]))
+                continue
         idx = [v for v in ivars if "init" in v and strip_casts(f.nodes[v["init"]]) is not None and strip_casts(f.nodes[v["init"]]).get("k") == "int" and strip_casts(f.nodes[v["init"]]).get("v") == 0]
         if len(idx) != 1:
             continue
@@ -90,7 +113,7 @@ def whole_container_loops(f, what):
                 for v in d.get("vars", []):
                     if "init" in v and expr_str(core(f.nodes[v["init"]])) == elem:
                         name = v["n"]
-        out.append((n, name if name else elem))
+        out.append((n, name if name else elem, cont) if full else (n, name if name else elem))
     return out
 
 
@@ -509,6 +532,57 @@ def r_discovered_append(prog, rep):
             v.get("did") is not None and mentions(a0, {v["did"]}) and any(x is via[0] for x in g.nodes[v["init"]].walk())
             for d in g.nodes if d.get("k") == "decl" for v in d["vars"] if "init" in v))
     r.check(ok, "taskDiscoveredDependency|records-given-key", "", "discovered dependency does not record the key it was given", g)
+
+
+QUEUE_DESTRUCTIVE = {
+    # queue: {operation: functions that may perform it}   (confirmed by reading; adding to a queue and reading it are not restricted)
+    "inputRequests": {"pop_front": {"executeTasks"}, "clear": {"cancelRemainingTasks"}},
+    "readyTaskInfos": {"pop_front": {"executeTasks"}, "clear": {"cancelRemainingTasks"}},
+    "ruleInfosToScan": {"pop_back": {"executeTasks"}, "erase": {"breakCycle"}, "clear": {"cancelRemainingTasks"}},
+    "finishedInputRequests": {"pop_back": {"executeTasks"}, "clear": {"cancelRemainingTasks", "executeTasks"}},
+    "finishedTaskInfos": {"pop_back": {"executeTasks"}, "clear": {"cancelRemainingTasks"}},
+}
+QUEUE_NONDESTRUCTIVE = {"push_back", "emplace_back", "insert", "empty", "size", "front", "back", "begin", "end", "cbegin", "cend", "iterate"}
+
+
+def r_queue_ops(prog, rep):
+    r = rep.rule("R-QUEUE-OPS", "the engine's work queues only grow by appending and shrink by the pop / cancel-time clear / cycle-break erase of the listed functions: "
+                                "no queue is assigned, swapped, moved from or resized — an entry already queued by an earlier step of the same pass is never lost", floor=20)
+    for fld, table in QUEUE_DESTRUCTIVE.items():
+        for f in engine_functions(prog):
+            fname = f.name.split("::")[-1] if not f.is_lambda else (f.parent or "").split("::")[-1].split("(")[0]
+            for n, kind in field_accesses(f, ENGINE + "::" + fld):
+                p = f.parent_of(n)
+                op = None
+                if p is not None and p.get("k") == "call" and "obj" in p and p.child("obj") is n:
+                    op = (p.get("fn") or "").split("::")[-1]
+                elif p is not None and p.get("k") == "member" and p.get("method"):
+                    op = p.get("n")
+                elif p is not None and p.get("k") == "forrange":
+                    op = "iterate"
+                elif p is not None and p.get("k") in ("bin", "call") and (p.get("op") or "").endswith("=") and p.get("op") not in ("==", "!=", "<=", ">="):
+                    lhs = p.child("l") if p.get("k") == "bin" else (p.child("obj") if "obj" in p else None)
+                    op = "assigned" if lhs is n else "read"
+                elif p is not None and p.get("k") == "call" and (p.get("fn") or "") in ("std::move", "std::swap", "std::exchange"):
+                    op = (p.get("fn") or "").split("::")[-1] + "d-from"
+                elif p is not None and p.get("k") == "decl":
+                    op = "iterate"          # `auto& q = queue` / range-for desugaring
+                else:
+                    op = "read"
+                if op in ("operator="):
+                    op = "assigned"
+                site = "%s|%s|%s" % (fname, fld, op)
+                if op in QUEUE_NONDESTRUCTIVE or op == "read":
+                    r.ok(site, "", f, n)
+                elif op in table:
+                    allowed = fname in table[op]
+                    if not allowed:
+                        # a helper extracted from an allowed function (called from nowhere else) acts for it
+                        callers = set(g.name.split("::")[-1] for g in engine_functions(prog) for c_ in g.calls() if c_.get("fk") == f.key)
+                        allowed = bool(callers) and callers <= table[op]
+                    r.check(allowed, site, "", "%s() performs %s on %s; only %s may" % (fname, op, fld, sorted(table[op])), f, n)
+                else:
+                    r.violation(site, "%s is %s in %s(): whatever an earlier step of this pass queued there is lost" % (fld, op, fname), f, n)
 
 
 def r_fifo(prog, rep):
@@ -1127,10 +1201,6 @@ def r_protocol_order(prog, rep):
     r.check(has(stp, "builtAt", True, ("!=", "0")) and has(stp, "signature", True, ("==",)), "demandRule|prior-value-guard", "",
             "prior value offered without a prior result of the same signature", f, pv[0])
     r.check(expr_str(core(arg_nodes(pv[0])[1])) == "ruleInfo.result.value", "demandRule|prior-value-arg", "", "prior value is not the rule's stored value", f, pv[0])
-    # dependencies cleared before start (the task records afresh)
-    clr = [c for c in f.calls("DependencyKeyIDs::clear")]
-    r.check(len(clr) == 1 and cfg.dominated_by(f, cfg.pos_of(f, st_[0]), lambda p, e: cfg.elem_node(f, e) is clr[0])[0],
-            "demandRule|deps-cleared-before-start", "", "dependencies not reset before the task starts requesting", f)
     # every ready push is under waitCount == 0
     for g in engine_functions(prog):
         for c in g.calls("push_back"):
@@ -1211,6 +1281,21 @@ def r_prior_value_guard(prog, rep, with_consumer=False):
         bh = BranchFacts(h, kill="assign")
         ok = bool(wr) and all(has(facts_at(bh, n), "isSuccessfulCommand", True) for n in wr if expr_str(core(n.child("r"))) == "true")
         r.check(ok, "ExternalCommand::providePriorValue|only-successful", "", "hasPriorResult is set for a prior value that is not a successful command result", h)
+
+
+def r_deps_reset(prog, rep):
+    """shared by C01, C02, C06, C11, C18: a task records its dependencies afresh."""
+    r = rep.rule("R-DEPS-RESET", "before a rule's task is started the rule's recorded dependency list is emptied on every path (not only when the rule has been "
+                                 "built before: a cancelled run leaves builtAt == 0 *and* a partly re-recorded list) — the completed result then lists exactly what "
+                                 "this execution requested", floor=1)
+    f = efn(prog, "demandRule")
+    st_ = f.calls("Task::start")
+    if len(st_) != 1:
+        raise AnalysisBroken("demandRule: %d calls of Task::start" % len(st_))
+    clr = [c for c in f.calls("DependencyKeyIDs::clear") if expr_str(c.child("obj")).endswith("result.dependencies")]
+    ok = bool(clr) and cfg.dominated_by(f, cfg.pos_of(f, st_[0]), lambda p, e: any(cfg.elem_node(f, e) is c_ for c_ in clr))[0]
+    r.check(ok, "demandRule|deps-cleared-before-start", "", "the recorded dependencies are not reset on every path before the task starts requesting: inputs of an "
+            "earlier (possibly aborted) execution stay recorded", f, clr[0] if clr else st_[0])
 
 
 def r_value_compare(prog, rep):
@@ -1413,7 +1498,8 @@ def r_waitfor_coverage(prog, rep):
     for rec, fld in parked:
         used = any(x.get("k") == "member" and x.get("n") == fld and x.get("qn", "").endswith("%s::%s" % (rec, fld)) for x in h.nodes)
         # it must be iterated, not merely mentioned
-        iterated = any(fr.get("k") == "forrange" and any(x.get("k") == "member" and x.get("qn", "").endswith("%s::%s" % (rec, fld)) for x in fr.child("range").walk()) for fr in h.nodes)
+        iterated = any(fr.get("k") == "forrange" and any(x.get("k") == "member" and x.get("qn", "").endswith("%s::%s" % (rec, fld)) for x in fr.child("range").walk()) for fr in h.nodes) or \
+            any(lp_.get("k") == "for" for lp_, _e in whole_container_loops(h, "." + fld) + whole_container_loops(h, "->" + fld))
         r.check(used and iterated, "findCycle|reads %s::%s" % (rec, fld), "", "wait-for edges parked in %s::%s are invisible to cycle detection" % (rec, fld), h)
     # every push site of a request parks it in one of these (or in an engine queue)
     known = set(f for _, f in parked) | {"ruleInfosToScan", "inputRequests", "finishedInputRequests"}
@@ -1450,6 +1536,14 @@ def r_waitfor_coverage(prog, rep):
                         n_edges += 1
     if n_edges:
         r.ok("findCycle|edges-accumulated", "%d append sites in %d request loops" % (n_edges, len(req_loops)), h)
+    # every parked request contributes: a loop over a parked-request container is not left early and skips an element only for having no task
+    for fr in h.nodes:
+        if fr.get("k") != "forrange" or not any(x.get("k") == "member" and any(x.get("qn", "").endswith("%s::%s" % (rec, fld)) for rec, fld in parked) for x in fr.child("range").walk()):
+            continue
+        leaves = [x for x in fr.child("body").walk() if x.get("k") in ("break", "return", "goto") and
+                  next((a for a in h.ancestors(x) if a.get("k") in ("forrange", "for", "while", "do", "switch")), None) is fr]
+        r.check(not leaves, "findCycle|all of %s" % expr_str(fr.child("range")).split("->")[-1].split(".")[-1], "", "the loop over %s can be left before its end: the requests parked behind "
+                "that point put no edge into the wait-for graph" % expr_str(fr.child("range")), h, leaves[0] if leaves else None)
     # all scanning rules' records are visited
     ok = any(fr.get("k") == "forrange" and expr_str(fr.child("range")) == "ruleInfos" for fr in h.nodes) and bool(h.calls("RuleInfo::isScanning"))
     r.check(ok, "findCycle|all-scanning-rules", "", "cycle finder does not visit the scan record of every scanning rule", h)
@@ -1987,7 +2081,10 @@ def r_dfs_pairing(prog, rep):
             cfg.path_exists(f, cfg.pos_of(f, push[0]), cfg.is_exit, avoid=lambda p, e, t=cfg.pos_of(f, ins[0]): p == t) is None)
         ok = ok and has(facts_at(bf, push[0]), "predecessorIndex", True, ("==", "0")) and has(facts_at(bf, ins[0]), "predecessorIndex", True, ("==", "0"))
     r.check(ok, "findCycle|append-and-mark-together-on-first-visit", "", "a node is appended to the reported list without being marked on-path (or on a revisit)", f)
-    brk = [n for n in f.nodes if n.get("k") == "break"]
+    # the break that ends the search: the one inside the loop that holds the on-path insertion (breaks of other loops are not its business)
+    sl = next((a for a in f.ancestors(ins[0]) if a.get("k") in ("while", "for", "do")), None) if ins else None
+    brk = [n for n in f.nodes if n.get("k") == "break" and sl is not None and
+           next((a for a in f.ancestors(n) if a.get("k") in ("while", "for", "do", "forrange", "switch")), None) is sl]
     okb = len(brk) == 1 and any((not p) and "second" in a for a, p in (bf.at_node(brk[0]) or frozenset()))
     r.check(okb, "findCycle|stop-iff-already-on-path", "", "the search does not stop exactly when the node is already on the current path", f)
     er = [c for c in f.calls() if "obj" in c and expr_plain(c.child("obj")) == "cycleItems" and (c.get("fn") or "").split("::")[-1] == "erase"]
